@@ -81,7 +81,7 @@ package zlib
 //@ func (*reader).Read
 //@   params z, p -> n, err
 //@   requires zrBase(z)
-//@   modifies **z.digest, z.err, z.scratch, **z.decompressor, **z.r, p[*], extReads, peekErr, lastReadN, lastReadErr, rfErr, rfN, lastSum32
+//@   modifies **z.digest, z.err, z.scratch, **z.decompressor, **z.r, p[*], extReads, peekErr, lastReadN, lastReadErr, rfErr, rfN, lastSum32, asmErrno, asmCalls
 //@   ensures[C07 inv] zrBase(z)
 //@   ensures[C07 C15 sticky] old(z.err) != nil ==> n == 0 && err == old(z.err) && extReads == old(extReads)
 //@   ensures[C07 C15 err-recorded] err != nil && err != io.EOF ==> z.err == err
@@ -91,6 +91,7 @@ package zlib
 //@   ensures@3[C07 C15 trailer-cut] err != io.EOF && (rfErr == io.EOF ==> err == io.ErrUnexpectedEOF) && (rfErr != io.EOF ==> err == rfErr)
 //@   ensures@2[C15 src-err] err != io.EOF
 //@   ensures[C07 eof-only-checked] err == io.EOF && old(z.err) == nil ==> z.err == io.EOF
+//@   assert call Uint32 1 [C07 C15 trailer-read-ok] rfErr == nil && rfN == 4
 //@   assert call ReadFull 1 [C11 no-data-held] typeis(z.decompressor, *github.com/intel/fastgo/compress/flate.decompressor) ==> n == 0
 
 //@ func (*reader).Close
